@@ -254,7 +254,8 @@ const META: Meta = Meta {
 
 pub fn run(env: &Env, replay: Option<&Path>) -> i32 {
     let mut report = Report::new();
-    let subs: [&dyn DynSub; 3] = [&Basis, &Product, &Sequence];
+    let cold = crate::coldstart::ColdStart("C13");
+    let subs: [&dyn DynSub; 4] = [&Basis, &Product, &Sequence, &cold];
     if let Some(p) = replay {
         if let Err(e) = replay_file(env, &subs, p, &mut report) {
             eprintln!("harness: {}", e);
@@ -267,5 +268,8 @@ pub fn run(env: &Env, replay: Option<&Path>) -> i32 {
     drive_enumerated(env, &Basis, b, &mut report);
     drive(env, &Product, env.tier.pick(60_000, 600_000), &mut report);
     drive(env, &Sequence, env.tier.pick(10_000, 200_000), &mut report);
+    // fresh processes whose threads make their first calls at the same moment
+    report.notes.push(crate::coldstart::NOTE.to_string());
+    drive(env, &cold, env.tier.pick(240, 6000), &mut report);
     finish(env, report, &META)
 }
